@@ -538,10 +538,7 @@ def _inline_into(h: _Helper, caller) -> int:
                             return ast.copy_location(_Sub(sub, {}).visit(val), node)
                 return node
 
-            def visit_FunctionDef(self, node):
-                return node if node is not caller else self.generic_visit(node)
-            visit_AsyncFunctionDef = visit_FunctionDef
-        E().visit(caller)
+        E().visit(caller)  # nested functions / classes included: an expression is substituted where it stands
     return done
 
 
